@@ -6,7 +6,7 @@ import (
 
 func init() {
 	register(&propSpec{ID: "C10", Level: "other", Run: runC10,
-		Canary:  []CanaryExpect{{Rule: "MAPORDER", Bad: "canaryBadSkipAppend", Good: "canaryGoodMapLoop"}, {Rule: "KIND-STORE", Bad: "canaryBadStoreSwap", Good: "canaryGoodStore"}, {Rule: "CHUNK", Bad: "canaryBadChunks", Good: "canaryGoodChunks"}},
+		Canary:  []CanaryExpect{{Rule: "MAPORDER", Bad: "canaryBadSkipAppend", Good: "canaryGoodMapLoop"}, {Rule: "KIND-STORE", Bad: "canaryBadStoreSwap", Good: "canaryGoodStore"}, {Rule: "CHUNK", Bad: "canaryBadChunks", Good: "canaryGoodChunks"}, {Rule: "INPLACE-GROW", Bad: "canaryBadSplitInPlace", Good: "canaryGoodFilterInPlace"}},
 		Explain: otherNote + "C10: decided = parser, printer and FieldParams of ExtendedSpatialID agree position by position; the two notation conversions are the canonical permutations (layout inference), one output per input in order; the expansion targets max(h,v), raises only the coarser axis with C03's functions and copies the other axis; arity guards. Region equality / counts of the expansion are NOT decided."})
 	register(&propSpec{ID: "C11", Level: "other", Run: runC11,
 		Canary: []CanaryExpect{{Rule: "ELEMENTWISE", Bad: "canaryBadPrevCache", Good: "canaryGoodNoState"}, {Rule: "ELEMENTWISE", Bad: "canaryBadCarriedTile", Good: "canaryGoodNoState"}, {Rule: "CACHE-KEY", Bad: "canaryBadMemoKey", Good: "canaryGoodMemoKey"},
@@ -25,6 +25,7 @@ func init() {
 func runC10(w *World, r *Report, tier string) {
 	kindRuleTexts(r)
 	unresolvedSeeds(w, r)
+	ruleSignedField(w, r)
 	entries := entryFuncs(w, r, "shape.ConvertSpatialIdsToExtendedSpatialIds", "shape.ConvertExtendedSpatialIdsToSpatialIds",
 		"common/object.NewExtendedSpatialID", "common/object.(*ExtendedSpatialID).ResetExtendedSpatialID",
 		"common/object.(ExtendedSpatialID).ID", "common/object.(*ExtendedSpatialID).FieldParams",
